@@ -153,7 +153,7 @@ def dispatch(chk: Check) -> None:
     # MessageBuilder
     mb = prog.cls('process_comms.MessageBuilder')
     for name in ('play', 'pause', 'kill', 'status'):
-        f = prog.view(mb.methods.get(name))
+        f = prog.view(mb.vmethods.get(name))
         chk.need(f is not None, f'MessageBuilder.{name} missing')
         from ..rules import Resolver
         rets = [r for r in ast.walk(f.node) if isinstance(r, ast.Return)]
@@ -173,7 +173,7 @@ def dispatch(chk: Check) -> None:
     for cq in ('process_comms.RemoteProcessController', 'process_comms.RemoteProcessThreadController'):
         c = prog.cls(cq)
         for meth, builder in (('pause_process', 'pause'), ('play_process', 'play'), ('kill_process', 'kill'), ('get_status', 'status')):
-            f = prog.view(c.methods.get(meth))
+            f = prog.view(c.vmethods.get(meth))
             chk.need(f is not None, f'{cq}.{meth} missing')
             sends = [x for x in calls_in_func(f, 'rpc_send')]
             ok = len(sends) == 1 and norm(sends[0].args[0]) == f.params[1]
@@ -189,7 +189,7 @@ def dispatch(chk: Check) -> None:
             chk.ob('TAB-controllers', f, ok, f'{c.name}.{meth} sends MessageBuilder.{builder}(text) by rpc_send(pid, ...)', kind='rpc-send')
     tc = prog.cls('process_comms.RemoteProcessThreadController')
     for meth, intent, builder in (('pause_all', 'PAUSE', 'pause'), ('play_all', 'PLAY', None), ('kill_all', 'KILL', 'kill')):
-        f = prog.view(tc.methods.get(meth))
+        f = prog.view(tc.vmethods.get(meth))
         sends = [x for x in calls_in_func(f, 'broadcast_send')]
         ok = len(sends) == 1 and any(k.arg == 'subject' and norm(k.value) == f'Intent.{intent}' for k in sends[0].keywords)
         chk.ob('TAB-controllers', f, ok, f'{meth} broadcasts with subject Intent.{intent}', kind='broadcast-subject')
@@ -386,7 +386,7 @@ def loop_communicator(chk: Check) -> None:
     prog = chk.prog
     lc = prog.cls('communications.LoopCommunicator')
     n = 0
-    for name, f in lc.methods.items():
+    for name, f in lc.vmethods.items():
         if name in ('__init__', 'loop') or name.startswith('_'):
             continue
         f = prog.view(f)
